@@ -154,6 +154,31 @@ def trace (C : Cls) : State → List Op → List Trace
       else ⟨false, canon C s, canon C s, []⟩
     t :: trace C (next C s o) rest
 
+/-! ### Side conditions used by the theorems (decidable, evaluated on every class table by the driver) -/
+
+/-- written by a (non-blocked) specification call of slot `k` -/
+def wr (C : Cls) (k : Nat) (o : Op) : Bool :=
+  decide ((C.sig o.m).writes = some k) && !(C.sig o.m).blocked
+
+/-- shape of a method signature: a specification call needs nothing and is not a fit; a fit call does not need an
+    earlier fit; every slot mentioned exists -/
+def wfSig (n : Nat) (g : Sig) : Bool :=
+  (match g.writes with
+   | some k => decide (k < n) && g.req.isEmpty && !g.needsFit && !g.isFit
+   | none => true) &&
+  (!g.isFit || (!g.needsFit && g.req.all (fun k => decide (k < n))))
+
+def wf (C : Cls) : Bool := C.sigs.all (wfSig C.nslots)
+
+/-- the class has no never-reset state at all -/
+def clean (C : Cls) : Bool := C.sigs.all fun g => g.sticky.isNone && g.lock.isNone
+
+/-- the call does not set a register -/
+def calmOp (C : Cls) (o : Op) : Bool := (C.sig o.m).sticky.isNone || !o.flag
+
+/-- no call of the history sets a register (always true for a `clean` class) -/
+def calm (C : Cls) (ops : List Op) : Bool := ops.all (calmOp C)
+
 /-! ### Class tables (method ids are the positions in `sigs`; the harness uses the same numbering)
 
 `miss` = the data set has missing outcomes (otherwise `missing_model` raises). -/
